@@ -184,13 +184,15 @@ def oracle(c):
         terms = d.terminals()
         if [id(t) for p in pre for t in p.daughters] != [id(t) for t in terms]:
             return "terminals are not the daughters of the preterminals"
-        p = D.from_string(d.to_udx())
-        for n in _all(p):
-            for x in getattr(n, "daughters", []):
-                if x.parent is None or not any(y is x for y in x.parent.daughters):
-                    return "a node's parent does not list it as a daughter"
-                if x.is_root():
-                    return "a non-top node is a root"
+        # however the tree was built: parsed from text, or rebuilt from its dictionary form
+        for how, p in (("parsed", D.from_string(d.to_udx())), ("rebuilt from its dictionary", D.from_dict(d.to_dict()))):
+            for n in _all(p):
+                for x in getattr(n, "daughters", []):
+                    if x.parent is None or not any(y is x for y in x.parent.daughters):
+                        return "in the tree %s, the parent (%r) of a daughter of node %r does not list it as a daughter" % (
+                            how, getattr(x.parent, "entity", x.parent), getattr(n, "entity", None))
+                    if x.is_root():
+                        return "a non-top node is a root"
     return None
 
 
